@@ -47,10 +47,17 @@ Record st := mkSt {
 
 Definition init : st := mkSt None 0%Z [] [] [] 0.
 
+(* what the provider / the new sink do if this step calls CreateSink (environment) *)
+Inductive cmode :=
+| CIdle        (* a new Idle sink whose Open() stays pending until OpenDone / Fault / Close *)
+| CFail        (* CreateSink raises *)
+| COpenNow     (* a new sink whose Open() completes synchronously: it reports Open at once, wait() does not block *)
+| CFailNow.    (* a new sink whose Open() fails synchronously: it reports Closed at once (no fault signal), wait() does not block *)
+
 Inductive label :=
-| Req (fail : bool)             (* a request enters AsyncProcessRequest; fail: CreateSink raises if it is called *)
+| Req (m : cmode)               (* a request enters AsyncProcessRequest *)
 | OpenPool                      (* pool.Open(): counts, and spawns the greenlet that will call _Get (first holder) *)
-| Start (t : nat) (fail : bool) (* scheduler: the greenlet spawned by Open call t starts running _Get *)
+| Start (t : nat) (m : cmode)   (* scheduler: the greenlet spawned by Open call t starts running _Get *)
 | ClosePool                     (* pool.Close() *)
 | OpenDone (n : nat) (ok : bool)(* environment: the pending open of sink n completes *)
 | Fault (n : nat)               (* environment: sink n fails *)
@@ -86,14 +93,20 @@ Inductive gres :=
 | GWait (n : nat)   (* blocked in sink n .Open().wait() *)
 | GSink (n : nat).  (* returned sink n without yielding *)
 
-(* branch "none": CreateSink, Subscribe, Open(); the fresh sink is Idle so wait() blocks *)
-Definition create (s : st) (fail : bool) : st * gres * list obs :=
-  if fail then (s, GRaise, [])
-  else
-    let n := length (sinks s) in
-    (set_sinks (set_next s (Some n)) (sinks s ++ [SIdle]), GWait n, [Create n; OpenUnder n]).
+(* branch "none": CreateSink, Subscribe, Open().wait(), return self.next_sink *)
+Definition fresh (s : st) (x : sstate) : st :=
+  set_sinks (set_next (set_next s None) (Some (length (sinks s)))) (sinks s ++ [x]).
 
-Definition get (s : st) (fail : bool) : st * gres * list obs :=
+Definition create (s : st) (m : cmode) : st * gres * list obs :=
+  let n := length (sinks s) in
+  match m with
+  | CFail => (set_next s None, GRaise, [])
+  | CIdle => (fresh s SIdle, GWait n, [Create n; OpenUnder n])
+  | COpenNow => (fresh s SOpen, GSink n, [Create n; OpenUnder n])
+  | CFailNow => (fresh s SClosed, GSink n, [Create n; OpenUnder n])
+  end.
+
+Definition get (s : st) (fail : cmode) : st * gres * list obs :=
   match next s with
   | None => create s fail
   | Some n =>
